@@ -508,6 +508,92 @@ func rulesC09(p *Prog, r *Report) {
 	if n == 0 {
 		r.Unknown("K3", "comparisons", "-", "kind=undecided: no string comparison found in the matcher files")
 	}
+	ruleAfterRecognition(p, r, "K5", false)
+}
+
+var successLitRe = regexp.MustCompile(`^\((?:nil == (.*\(.*\))|(.*\(.*\)) == nil)\)$`)
+
+// afterRecognition: block b of a scanner method is only reached after an id was recognised — its path
+// condition contains "the result of <a *token-returning stream/lookup call> is not nil". Returns the call.
+func afterRecognition(p *Prog, f *ssa.Function, b *ssa.BasicBlock) (string, bool) {
+	for _, l := range pathLiterals(p, f, b) {
+		if l.Op != "not" || l.Args[0].Op != "atom" {
+			continue
+		}
+		if m := successLitRe.FindStringSubmatch(l.Args[0].Atom); m != nil {
+			call := m[1] + m[2]
+			if strings.Contains(call, "ormalize") || strings.Contains(call, "ookup") {
+				return call, true
+			}
+		}
+	}
+	return "", false
+}
+
+// ruleK5 (C09) / G9 (C05): once the scanner has recognised an id (a lookup or the normalisation returned
+// a token), nothing may be decided on the caller's spelling of that id any more, and the id may not be
+// rejected: a branch on the raw text after recognition makes acceptance depend on letter case (the
+// lookup folds case, the raw text does not), an error after recognition rejects a listed id.
+func ruleAfterRecognition(p *Prog, r *Report, rule string, wantErrors bool) {
+	if wantErrors {
+		r.Rule(rule, "necessary", 1, "a recognised id is not rejected afterwards: no error is recorded by the scanner on a path where a lookup / the normalisation has already returned a token")
+	} else {
+		r.Rule(rule, "necessary", 1, "after an id was recognised no decision is taken on the caller's spelling of it: no branch condition on a path behind a successful lookup / normalisation mentions the raw id text")
+	}
+	n := 0
+	for _, f := range p.RList {
+		if f.Signature.Recv() == nil || !strings.Contains(f.Signature.Recv().Type().String(), "expressionStream") {
+			continue
+		}
+		qz := &quantizer{p: p, elemVar: map[ssa.Value]string{}, inlineAll: true}
+		for _, b := range f.Blocks {
+			via, after := afterRecognition(p, f, b)
+			if !after {
+				continue
+			}
+			for _, in := range b.Instrs {
+				switch t := in.(type) {
+				case *ssa.If:
+					if wantErrors {
+						continue
+					}
+					n++
+					key := fmt.Sprintf("%s|branch after recognition", p.shortKey(f))
+					cs := qz.boolOf(t.Cond, map[*ssa.Phi]*qf{}).String()
+					raw := ""
+					for _, prm := range f.Params[1:] {
+						if isStringType(prm.Type()) && strings.Contains(cs, "param:"+prm.Name()) {
+							raw = prm.Name()
+						}
+					}
+					if strings.Contains(cs, ".readID(") {
+						raw = "the text read by readID"
+					}
+					if raw != "" {
+						r.Bad(rule, key, p.pos(t.Cond.Pos()), fmt.Sprintf("after %s returned a token, the scanner still branches on the caller's spelling (%s): %s — what is accepted then depends on the letter case the id was written in", shortDesc(via), raw, shortDesc(cs)))
+					} else {
+						r.OK(rule, key, p.pos(t.Cond.Pos()), "condition does not mention the raw id text", "", false)
+					}
+				case *ssa.Store:
+					if !wantErrors {
+						continue
+					}
+					fa, ok := t.Addr.(*ssa.FieldAddr)
+					if !ok || fieldOf(fa).Field != "err" {
+						continue
+					}
+					if c, isC := t.Val.(*ssa.Const); isC && c.IsNil() {
+						continue
+					}
+					n++
+					r.Bad(rule, fmt.Sprintf("%s|error after recognition", p.shortKey(f)), p.pos(t.Pos()), fmt.Sprintf("an error is recorded after %s has already returned a token: an id that is on the lists (in some spelling) is rejected", shortDesc(via)))
+				}
+			}
+		}
+	}
+	if n == 0 {
+		r.OK(rule, "scanner", "-", "nothing is decided or rejected after recognition", "", true)
+	}
 }
 
 func shortDesc(s string) string {
